@@ -81,7 +81,9 @@ def queries(tier):
         qs.append(Query("rep-" + skel.tag(w2), "c04/rep.c", tus=TUS, env=ENV, defs={"SKEL": w2}, cdefs=["-DENV_MSG_CAP=48"], unwind=12, unwind_rules=KIT_RULES, timeout=300,
                         params={"protocol": "rep0", "skeleton": w2}))
     # the same state machine through an explicit context (nng_ctx_open) instead of the socket's embedded one
-    for w in REP_CUR + ["A(0) Q(0,0) R(0,1) S(1,1) S(2,1) Z", "A(0) G(0,1) S(0,1) S(1,1) Z"]:
+    # ... and nng_ctx_close with a reply queued behind a busy connection AND the next receive pending (both must end), with one of them, with neither
+    CTXCLOSE = ["A(0) G(0,0) S(0,1) G(0,0) S(1,1) R(2,1) X", "A(0) G(0,0) S(0,1) G(0,0) S(1,1) X", "A(0) R(0,1) X", "A(0) G(0,0) S(0,1) X", "A(0) Q(0,0) R(0,1) X"]
+    for w in REP_CUR + ["A(0) Q(0,0) R(0,1) S(1,1) S(2,1) Z", "A(0) G(0,1) S(0,1) S(1,1) Z"] + CTXCLOSE:
         qs.append(Query("repctx-" + skel.tag(w), "c04/rep.c", tus=TUS, env=ENV, defs={"SKEL": w, "XCTX": 1}, cdefs=["-DENV_MSG_CAP=48"], unwind=12, unwind_rules=KIT_RULES,
                         timeout=300, params={"protocol": "rep0", "context": "explicit", "skeleton": w}))
     return qs
